@@ -62,7 +62,12 @@ META = {
     'assumptions': ['C07_commit_no_stale_partial / rollback instance part assume `good` at every step: at commit, every loaded '
                     'parent instance of a written key is the one the parent cache returns and the key is in the transaction '
                     'cache\'s allIDs() or the deleted log; at rollback the loaded transaction-side instances of written keys are '
-                    'the cached ones; writes go through the only loaded instance of the row on either side'],
+                    'the cached ones; writes go through the only loaded instance of the row on either side',
+                    'C07_translated_*_eq_model: the calls into other objects are interpreter parameters (Model/TxX.lean header): '
+                    'allIDs() returns any list whose members are exactly Conn.inAllIDs (AllIDsSpec, tied to CacheFactory.allIDs by C04), '
+                    'tryGet/tryGetByName = Conn.tryGet, inst.expire() = opExpire, low-level COMMIT/ROLLBACK as in Model/Tx.lean, signal '
+                    'listeners and debug output do not touch the modelled state; representation invariant ConnWF (holds in every '
+                    'reachable state: C07_translated_rep_reachable); ids < 1000 per class (key = class*1000 + id)'],
     'exhaustive': False,
 }
 
